@@ -180,6 +180,11 @@ impl TlSpec {
     }
 
     pub fn build(&self) -> ValsTimeline {
+        TimelineBuilder::build(self.configuration())
+    }
+
+    /// The un-built configuration (accepted directly by `StateAnimatorBuilder::on`).
+    pub fn configuration(&self) -> mina::TimelineConfiguration<ValsKeyframeData> {
         let mut cfg = Vals::timeline()
             .duration_seconds(self.duration)
             .delay_seconds(self.delay)
@@ -217,7 +222,7 @@ impl TlSpec {
             }
             cfg = cfg.keyframe(b);
         }
-        TimelineBuilder::build(cfg)
+        cfg
     }
 
     pub fn uses_back(&self) -> bool {
@@ -227,7 +232,12 @@ impl TlSpec {
 
 impl MergedSpec {
     pub fn build(&self) -> MergedTimeline<ValsTimeline> {
-        MergedTimeline::of(self.parts.iter().map(|p| p.build()))
+        if self.parts.len() == 1 && self.parts[0].kfs.len() % 2 == 1 {
+            // wrapping a single timeline: the `From` conversion
+            MergedTimeline::from(self.parts[0].build())
+        } else {
+            MergedTimeline::of(self.parts.iter().map(|p| p.build()))
+        }
     }
     pub fn keyframes_prop(&self, prop: usize) -> bool {
         self.parts.iter().any(|p| p.keyframes_prop(prop))
@@ -244,7 +254,17 @@ impl AnimSpec {
             .from_values(self.initial_values.clone());
         for (i, st) in self.states.iter().enumerate() {
             if let Some(m) = st {
-                b = b.on(St::from_index(i), m.build());
+                // every accepted argument form of `on` is used, chosen by the shape of the spec:
+                // a merged timeline, a built plain timeline, or the configuration builder itself
+                b = if m.parts.len() == 1 {
+                    match (i + m.parts[0].kfs.len()) % 3 {
+                        0 => b.on(St::from_index(i), m.build()),
+                        1 => b.on(St::from_index(i), m.parts[0].build()),
+                        _ => b.on(St::from_index(i), m.parts[0].configuration()),
+                    }
+                } else {
+                    b.on(St::from_index(i), m.build())
+                };
             }
         }
         b.build()
